@@ -156,6 +156,136 @@ class _CanonRet(ast.NodeTransformer):
         return node
 
 
+class _CanonTernary(ast.NodeTransformer):
+    """``x = A if c else B`` (a statement of its own) is read as ``if c: x = A  else: x = B``"""
+
+    def generic_visit(self, node):
+        super().generic_visit(node)
+        for fld in ('body', 'orelse', 'finalbody'):
+            v = getattr(node, fld, None)
+            if isinstance(v, list) and v and isinstance(v[0], ast.stmt):
+                out = []
+                for st in v:
+                    if isinstance(st, ast.Assign) and isinstance(st.value, ast.IfExp) and len(st.targets) == 1 \
+                            and isinstance(st.targets[0], ast.Name):
+                        import copy
+                        a = ast.copy_location(ast.Assign(targets=[copy.deepcopy(st.targets[0])], value=st.value.body), st)
+                        b = ast.copy_location(ast.Assign(targets=[copy.deepcopy(st.targets[0])], value=st.value.orelse), st)
+                        out.append(ast.copy_location(ast.If(test=st.value.test, body=[a], orelse=[b]), st))
+                    else:
+                        out.append(st)
+                setattr(node, fld, out)
+        return node
+
+
+class _CanonInline(ast.NodeTransformer):
+    """``t = E; <statement reading t once>`` (adjacent; t a local with this one definition and this one use in the
+    whole function, the use not under a lambda / comprehension / loop body and not preceded, inside that statement,
+    by another call) is read as the statement with E in place of t: naming a condition or an operand changes nothing."""
+
+    def visit_FunctionDef(self, node):
+        self.generic_visit(node)
+        stores, loads, banned = {}, {}, set()
+        for n in ast.walk(node):
+            if isinstance(n, ast.Name):
+                d = stores if isinstance(n.ctx, ast.Store) else loads
+                d[n.id] = d.get(n.id, 0) + 1
+                if isinstance(n.ctx, ast.Del):
+                    banned.add(n.id)
+            elif isinstance(n, (ast.Global, ast.Nonlocal)):
+                banned |= set(n.names)
+            elif n is not node and isinstance(n, (ast.FunctionDef, ast.Lambda, ast.ListComp, ast.SetComp, ast.DictComp, ast.GeneratorExp)):
+                for m in ast.walk(n):
+                    if isinstance(m, ast.Name):
+                        banned.add(m.id)
+            elif isinstance(n, (ast.MatchAs, ast.MatchStar)) and n.name:
+                banned.add(n.name)
+            elif isinstance(n, ast.ExceptHandler) and n.name:
+                banned.add(n.name)
+        for a in node.args.posonlyargs + node.args.args + node.args.kwonlyargs + [x for x in (node.args.vararg, node.args.kwarg) if x]:
+            banned.add(a.arg)
+        cand = {k for k in stores if stores[k] == 1 and loads.get(k, 0) == 1 and k not in banned}
+        if cand:
+            self._blocks(node, cand)
+        return node
+
+    def _header(self, st):
+        """the expressions of `st` that are evaluated exactly once, right when the statement is reached"""
+        if isinstance(st, (ast.If,)):
+            return [st.test]
+        if isinstance(st, ast.For):
+            return [st.iter]
+        if isinstance(st, (ast.Assign, ast.AugAssign, ast.AnnAssign, ast.Return, ast.Expr)):
+            return [st.value] if st.value is not None else []
+        if isinstance(st, ast.Assert):
+            return [st.test]
+        if isinstance(st, ast.Raise):
+            return [st.exc] if st.exc is not None else []
+        return []
+
+    def _blocks(self, node, cand):
+        for fld in ('body', 'orelse', 'finalbody', 'handlers', 'cases'):
+            v = getattr(node, fld, None)
+            if not isinstance(v, list):
+                continue
+            for ch in v:
+                if isinstance(ch, (ast.FunctionDef, ast.ClassDef)):
+                    continue
+                if isinstance(ch, (ast.stmt, ast.ExceptHandler, ast.match_case)):
+                    self._blocks(ch, cand)
+            if v and isinstance(v[0], ast.stmt):
+                changed = True
+                while changed:
+                    changed = False
+                    out = []
+                    for st in v:
+                        prev = out[-1] if out else None
+                        if isinstance(prev, ast.Assign) and len(prev.targets) == 1 and isinstance(prev.targets[0], ast.Name) \
+                                and prev.targets[0].id in cand and self._try(prev, st):
+                            out.pop()
+                            changed = True
+                        out.append(st)
+                    v = out
+                setattr(node, fld, v)
+
+    def _try(self, a, st):
+        name = a.targets[0].id
+        for h in self._header(st):
+            use = [n for n in ast.walk(h) if isinstance(n, ast.Name) and n.id == name and isinstance(n.ctx, ast.Load)]
+            if len(use) != 1:
+                continue
+            u = use[0]
+            has_call = any(isinstance(n, (ast.Call, ast.Yield, ast.YieldFrom, ast.Await, ast.NamedExpr)) for n in ast.walk(a.value))
+            if has_call:
+                post = []
+
+                def po(n):
+                    for ch in ast.iter_child_nodes(n):
+                        po(ch)
+                    post.append(n)
+                po(h)
+                k = next(i for i, n in enumerate(post) if n is u)
+                if any(isinstance(c, (ast.Call, ast.NamedExpr)) for c in post[:k]):
+                    return False      # something with a possible effect is evaluated before the use
+                # short-circuit operands to the left would make the evaluation conditional
+                for b in ast.walk(h):
+                    if isinstance(b, ast.BoolOp) and any(x is u for v2 in b.values[1:] for x in ast.walk(v2)):
+                        return False
+                    if isinstance(b, ast.IfExp) and any(x is u for v2 in (b.body, b.orelse) for x in ast.walk(v2)):
+                        return False
+
+            class R(ast.NodeTransformer):
+                def visit_Name(self, n):
+                    return a.value if n is u else n
+            R().visit(st) if not isinstance(h, ast.Name) else None
+            if isinstance(h, ast.Name):      # the header is the bare name itself
+                for fld in ('test', 'iter', 'value', 'exc'):
+                    if getattr(st, fld, None) is h:
+                        setattr(st, fld, a.value)
+            return True
+        return False
+
+
 def _dump_load(e):
     import copy
     e = copy.deepcopy(e)
@@ -182,6 +312,7 @@ class Program:
                 src = fp.read()
             tree = ast.parse(src, filename=path)
             tree = ast.fix_missing_locations(_CanonRet().visit(_CanonAug().visit(tree)))
+            tree = ast.fix_missing_locations(_CanonTernary().visit(_CanonInline().visit(tree)))
         except (OSError, SyntaxError) as e:
             raise AnalysisError(f'cannot parse {path}: {e}') from e
         mi = ModuleInfo(
